@@ -1388,7 +1388,7 @@ NS_P = Namespace('p', 'http://example.org/p')
 NS_D = Namespace(None, 'http://example.org/d')
 
 ENUMERATION = {
-    'quick': 'sheets of <= 2 rules x <= 2 selectors x <= 2 declarations; every inventory entry alone; every ordered pair of construct kinds '
+    'quick': 'sheets of <= 2 rules x <= 2 selectors x <= 2 declarations; every inventory entry alone (value components also as first / second of two); every ordered pair of construct kinds '
              '(component kinds x separator, simple-selector kinds in one compound, type-selector kind x simple kind, compound x combinator x compound, '
              'rule kind x rule kind in every order the grammar allows, media-query kinds) with one representative per kind',
     'thorough': 'the quick set plus every ordered pair of inventory ENTRIES (components x separator, simple selectors, media queries), '
@@ -1447,6 +1447,10 @@ def enumerate_values(tier):
     for k1, k2 in itertools.product(COMPONENT_KINDS, repeat=2):
         for sep in SEPARATORS:
             out.append(('pair:%s%s%s' % (k1, sep, k2), V(rep[k1], sep, rep[k2])))
+    # every inventory entry as second component (after an identifier) and as first component (before one)
+    for k, c in COMPONENTS:
+        out.append(('second:' + k, V(_i('a'), c)))
+        out.append(('first:' + k, V(c, _i('b'))))
     if tier == 'thorough':
         for (k1, c1), (k2, c2) in itertools.product(COMPONENTS, repeat=2):
             for sep in SEPARATORS:
